@@ -248,7 +248,7 @@ func (c *collector) execFmt(fc *fmtCase, caseKey string, bits int) {
 		if !ok {
 			c.mu.Lock()
 			c.direct = append(c.direct, directFinding{
-				key:  "limit/" + fc.Origin,
+				key:  fc.Origin,
 				what: fmt.Sprintf("%s: formatted value (%d bytes, options %v) does not read back (err=%v)", fc.Origin, len(data), names, perr),
 				c:    map[string]any{"side": "limit", "name": fc.Origin, "opts": bits},
 			})
@@ -528,8 +528,9 @@ func run(ctx *core.Ctx) error {
 			nrender++
 		}
 	}
-	if int64(nfmt)+1 != mc.Distinct {
-		return core.Infra("Gen_PdfSyntax emitted %d value sequences but MC_PdfSyntax counted %d states (expected one more): the two enumerations differ", nfmt, mc.Distinct)
+	// every case is produced by exactly one action instance of the model
+	if int64(nfmt)+1 != mc.Generated {
+		return core.Infra("Gen_PdfSyntax emitted %d value sequences but MC_PdfSyntax generated %d states (expected one more): the two enumerations differ", nfmt, mc.Generated)
 	}
 
 	col := newCollector(ctx)
